@@ -59,6 +59,9 @@ func (x *Exec) call(st *State, e *ast.CallExpr) []Val {
 
 	// quantifiers and other translator-level functions of the spec part
 	if x.isSpecFunc(fn) {
+		if (strings.HasPrefix(fn.Name(), "forall") || strings.HasPrefix(fn.Name(), "exists")) && len(e.Args) == 1 {
+			return []Val{x.typedQuantifier(st, e, strings.HasPrefix(fn.Name(), "forall"))}
+		}
 		switch fn.Name() {
 		case "forall", "exists":
 			return []Val{x.quantifier(st, e, fn.Name() == "forall")}
@@ -485,6 +488,50 @@ func (x *Exec) quantifier(st *State, e *ast.CallExpr, universal bool) Val {
 		t = c.Forall([]*Term{bv}, c.Implies(rng, body))
 	} else {
 		t = c.Exists([]*Term{bv}, c.And(rng, body))
+	}
+	return Val{Typ: types.Typ[types.Bool], T: t}
+}
+
+// typedQuantifier: forallXxx(func(k T) bool { return ... }) — unbounded quantification over all
+// values of the scalar type T (uint64, string, pointers ...).
+func (x *Exec) typedQuantifier(st *State, e *ast.CallExpr, universal bool) Val {
+	c := x.c
+	fl, ok := ast.Unparen(e.Args[0]).(*ast.FuncLit)
+	if !ok || len(fl.Body.List) != 1 {
+		x.fail("typed quantifier: argument must be a function literal with a single return statement")
+	}
+	ret, ok := fl.Body.List[0].(*ast.ReturnStmt)
+	if !ok || len(ret.Results) != 1 {
+		x.fail("typed quantifier: body must be a single return statement")
+	}
+	qs := st.clone()
+	var bvs []*Term
+	var ranges []*Term
+	for _, f := range fl.Type.Params.List {
+		for _, pn := range f.Names {
+			obj := x.info.Defs[pn]
+			t := obj.Type()
+			if isSliceT(t) || isObjType(t) {
+				x.fail("typed quantifier over %s not supported", t)
+			}
+			bv := c.Bound(pn.Name, x.scalarSort(t))
+			bvs = append(bvs, bv)
+			qs.vars[obj] = Val{Typ: t, T: bv}
+			if x.mode == "math" {
+				if _, _, isInt := intInfo(t); isInt {
+					ranges = append(ranges, x.inRange(bv, t))
+				}
+			}
+		}
+	}
+	x.inQuant++
+	body := x.expr(qs, ret.Results[0]).T
+	x.inQuant--
+	var t *Term
+	if universal {
+		t = c.Forall(bvs, c.Implies(c.And(ranges...), body))
+	} else {
+		t = c.Exists(bvs, c.And(append(ranges, body)...))
 	}
 	return Val{Typ: types.Typ[types.Bool], T: t}
 }
